@@ -257,6 +257,11 @@ def run(ctx: Ctx) -> Result:
         for ln in (126, 127, 128, 129, 254, 255, 256, 257, 32766, 32767, 32768, 32769, 65534, 65535):
             rt.append((f'push of {ln} bytes', P.compile_script('push x' + 'ab' * ln)))
             if ln < 65000: rt.append((f'if-body of ~{ln} bytes', P.compile_script('true if { push x' + 'cd' * max(1, ln - 4) + ' }')))
+        # operands the compiler accepts in a non-minimal spelling: the listing must give the same bytes back
+        for src in ('div_int xfff6', 'mod_int xff80', 'div_int xff8000', 'mod_int xffff', 'div_int x0005', 'mod_int x000080', 'div_int x00', 'div_int xff', 'mod_int x80',
+                    'def 0 { if { div_int xfff6 } else { mod_int xffff80 } } try { div_int xff7f } except { }'):
+            try: rt.append((f'non-minimal operand: {src}', P.compile_script(src)))
+            except BaseException: pass
         for name, b in builder_outputs(rng):
             if b is None: res.notes.append(name)
             else: rt.append(('builder ' + name, b))
